@@ -30,6 +30,8 @@ enum Node {
     List(Vec<usize>),
     Concat(usize, usize),
     Bytes(Vec<u8>),
+    /// a symbol list (key path) of these raw symbols
+    SymList(Vec<u64>),
 }
 
 struct Graph {
@@ -72,7 +74,7 @@ fn gen_nodes(t: &mut Tape, n: usize) -> Vec<Node> {
                     if k > 4 {
                         // a long list refers to leaves only: the reachability expansion visits a shared value once per path
                         // (the recorded clone-limit finding), so long lists of shared compound values take exponential time
-                        let leaves: Vec<usize> = (0..i).filter(|j| matches!(nodes[*j], Node::Num(_) | Node::Flt(_) | Node::Text(_) | Node::Sym(_) | Node::Bytes(_))).collect();
+                        let leaves: Vec<usize> = (0..i).filter(|j| matches!(nodes[*j], Node::Num(_) | Node::Flt(_) | Node::Text(_) | Node::Sym(_) | Node::Bytes(_) | Node::SymList(_))).collect();
                         Node::List((0..k).map(|_| leaves[t.choose(leaves.len())]).collect())
                     } else {
                         Node::List((0..k).map(|_| pick(t, i)).collect())
@@ -80,8 +82,13 @@ fn gen_nodes(t: &mut Tape, n: usize) -> Vec<Node> {
                 }
                 7 => Node::Concat(pick(t, i), pick(t, i)),
                 8 => {
-                    let k = [2usize, 2, 0, 1, 13, 70][t.choose(6)];
-                    Node::Bytes((0..k).map(|_| t.byte()).collect())
+                    if t.chance(100) {
+                        let k = [2usize, 2, 3, 5][t.choose(4)];
+                        Node::SymList((0..k).map(|j| 40_000 + (t.choose(9) as u64) * 31 + j as u64).collect())
+                    } else {
+                        let k = [2usize, 2, 0, 1, 13, 70][t.choose(6)];
+                        Node::Bytes((0..k).map(|_| t.byte()).collect())
+                    }
                 }
                 _ => Node::Pair(i - 1, i - 2), // shared sub-values
             }
@@ -119,6 +126,14 @@ fn build_graph(d: &mut B, nodes: &[Node]) -> Result<Graph, String> {
                     l = d.add_to_list(l, g.addrs[*i]).map_err(e)?;
                 }
                 (d.end_list(l).map_err(e)?, V::List(items.iter().map(|i| g.values[*i].clone()).collect()))
+            }
+            Node::SymList(syms) => {
+                let mut acc = d.add_symbol(syms[0]).map_err(e)?;
+                for sy in &syms[1..] {
+                    let next = d.add_symbol(*sy).map_err(e)?;
+                    acc = d.merge_to_symbol_list(acc, next).map_err(e)?;
+                }
+                (acc, V::SymList(syms.iter().map(|x| crate::model::value::SymPart::Sym(*x)).collect()))
             }
             Node::Concat(i, j) => (d.add_concatenation(g.addrs[*i], g.addrs[*j]).map_err(e)?, V::Concat(Box::new(g.values[*i].clone()), Box::new(g.values[*j].clone()))),
         };
@@ -296,6 +311,40 @@ fn judge_graph(t: &mut Tape, ctx: &mut CaseCtx) {
                 return;
             }
         }
+        if round == 1 {
+            // the store stays usable: a symbol whose name it already holds, a number and a text added after compaction read
+            // back as what was added, and what was there still reads back as before
+            for name in g.symbols.iter().take(3) {
+                match guard("store", || d.parse_add_symbol(name)) {
+                    Ok(Ok(a)) => {
+                        let v = readback(&d, a);
+                        if !same(&v, &sym(name)) {
+                            ctx.fail("value-added-after-optimize-reads-back-wrong:Symbol".to_string(), format!("{}: parse_add_symbol({:?}) after optimize returned {} which reads back {}", what, name, a, v));
+                            return;
+                        }
+                    }
+                    Ok(Err(e)) => {
+                        ctx.fail("add-after-optimize-fails".to_string(), format!("{}: parse_add_symbol({:?}) after optimize: Err({})", what, name, e));
+                        return;
+                    }
+                    Err(p) => {
+                        ctx.fail(format!("store-panic@{}", p.loc), format!("{}: parse_add_symbol after optimize: {}", what, p.msg));
+                        return;
+                    }
+                }
+            }
+            if let (Ok(a), Ok(b)) = (d.add_number(SimpleNumber::Integer(424242)), d.parse_add_char_list("\"aé\"")) {
+                if !same(&readback(&d, a), &V::Int(424242)) || !same(&readback(&d, b), &value::text("aé")) {
+                    ctx.fail("value-added-after-optimize-reads-back-wrong".to_string(), format!("{}: a number / text added after optimize read back as {} / {}", what, readback(&d, a), readback(&d, b)));
+                    return;
+                }
+            }
+            let later = snapshot(&d, &g.symbols);
+            if let Some((sig, detail)) = diff(&before, &later) {
+                ctx.fail(format!("{}:after-adding-to-the-compacted-store", sig), format!("{}: {}", what, detail));
+                return;
+            }
+        }
         if round == 0 {
             // repeated compaction with the mapped roots
             mapped = match guard("optimize", || d.optimize(&mapped.clone())) {
@@ -447,8 +496,8 @@ impl Check for C19Check {
     }
     fn rule(&self) -> String {
         format!(
-            "Phase graphs: BasicGarnishData loaded with random value graphs of 3..30 nodes (numbers, multi-byte text of 0..130 characters, byte lists of 0..70 bytes, named symbols incl. long non-ASCII names, pairs, symbol-keyed pairs, lists of 0..33 items, concatenations, shared sub-values), a retention count at a random object boundary (none / some / all), random values pushed on the operand stack, the input-value stack and under call frames, random extra roots including values already on a stack or inside the retained prefix; optimize is called twice (second time with the returned mapping). \
-             Phase programs: {} pool programs (conditionals, nested calls, reapply loops, side effects, lists, look-ups) and random core ASTs, constants retained after build, with optimize injected before EVERY step (first 80 step boundaries) of the run. Phase clones: clone_data on random nodes of random graphs. \
+            "Phase graphs: BasicGarnishData loaded with random value graphs of 3..30 nodes (numbers, multi-byte text of 0..130 characters, byte lists of 0..70 bytes, named symbols incl. long non-ASCII names, pairs, symbol-keyed pairs, lists of 0..33 items, concatenations, shared sub-values), a retention count at a random object boundary (none / some / all), random values pushed on the operand stack, the input-value stack and under call frames, random extra roots including values already on a stack or inside the retained prefix; optimize is called twice (second time with the returned mapping), then a symbol whose name the store holds, a number and a text are added and everything is read again. \
+             Phase programs: {} pool programs (conditionals, nested calls, reapply loops, side effects, lists, look-ups) and random core ASTs, constants retained after build, with optimize injected before EVERY step (first 80 step boundaries) of the run. Phase clones: clone_data on random nodes of random graphs. Phase helper-clones: random value trees copied with the generic helper helpers::clone_data from one data object into another of the same implementation (both implementations). \
              Oracle: read-back of every register, value-stack entry, frame (return address and registers visible after returning), symbol name, retained address and extra root (through the returned mapping) is structurally identical before and after; a run with injected compaction ends with the same value as the uninterrupted run; a clone reads back equal to its source and every original still reads back as before. \
              Non-trivial = a graph with shared sub-values and an extra root that is also on a stack, any program, any clone case; distinct = distinct cases.",
             POOL.len()
@@ -466,11 +515,53 @@ impl Check for C19Check {
             Phase::exhaustive("pool-programs", POOL.len() as u64).with_chunk(1),
             Phase::random("random-programs", tier.pick(15_000, 200_000), 160).with_min_tape(24).with_chunk(64),
             Phase::random("clones", tier.pick(100_000, 1_000_000), 160).with_min_tape(30).with_chunk(512),
+            Phase::random("helper-clones", tier.pick(60_000, 600_000), 120).with_min_tape(24).with_chunk(512),
         ]
     }
     fn run(&self, _tier: Tier, phase: usize, input: &Input, ctx: &mut CaseCtx) {
         match (phase, input) {
             (0, Input::Tape(t)) => judge_graph(&mut Tape::new(t), ctx),
+            (4, Input::Tape(t)) => {
+                // the generic helper garnish_lang_traits::helpers::clone_data (what SimpleGarnishData's
+                // clone_with_retained_data uses): a value tree copied from one data object into another, for each
+                // of the two implementations
+                let mut t = Tape::new(t);
+                let v = crate::checks::c11::tree(&mut t, 3);
+                let from_basic = t.flag();
+                let to_basic = from_basic;
+                ctx.render(|| format!("helpers::clone_data of {} from one {} object into another", v, if from_basic { "BasicGarnishData" } else { "SimpleGarnishData" }));
+                ctx.class("helper-clone");
+                if v.depth() >= 2 {
+                    ctx.nontrivial(fnv(format!("hc{}{}{}", v, from_basic, to_basic).as_bytes()));
+                }
+                fn go<A: GD>(from: &mut A, to: &mut A, v: &V, ctx: &mut CaseCtx) {
+                    let a = match value::build_value(from, v) {
+                        Ok(a) => a,
+                        Err(_) => return,
+                    };
+                    // something in the destination already, so that addresses differ between the two objects
+                    let _ = to.add_number(SimpleNumber::Integer(9));
+                    match guard("clone", || garnish_lang_traits::helpers::clone_data(a, from, to)) {
+                        Err(p) => ctx.fail(format!("clone-panic@{}", p.loc), format!("helpers::clone_data({}): {}", v, p.msg)),
+                        Ok(Err(e)) => ctx.fail(format!("helper-clone-error:{}", v.type_name()), format!("helpers::clone_data({}): Err({})", v, e)),
+                        Ok(Ok(b)) => {
+                            let got = readback(to, b);
+                            if !same(&got, v) {
+                                ctx.fail(format!("helper-clone-differs:{}", v.type_name()), format!("helpers::clone_data({}) reads back as {} in the destination", v, got));
+                            }
+                            let still = readback(from, a);
+                            if !same(&still, v) {
+                                ctx.fail("helper-clone-changed-the-original".to_string(), format!("{} reads back as {} after being cloned", v, still));
+                            }
+                        }
+                    }
+                }
+                if from_basic {
+                    go(&mut new_basic(), &mut new_basic(), &v, ctx)
+                } else {
+                    go(&mut new_simple(), &mut new_simple(), &v, ctx)
+                }
+            }
             (1, Input::Index(i)) => judge_program(POOL[*i as usize], ctx),
             (2, Input::Tape(t)) => {
                 let mut t = Tape::new(t);
